@@ -51,6 +51,36 @@ def rule_merge_keeps_wrappers(prog, rep, R="C12.merge-kept"):
             rep.holds(R, site, "Chain.merge_chains:keeps-wrappers", "merge_chains does not call unwrap", nontrivial=False)
 
 
+def rule_wrapper_ctors_keep_wrappers(prog, rep, R):
+    """The wrapper classes alone (used by C09: the block network's masks live in Where nodes INSIDE a
+    WeightNormalization, which must therefore keep its argument as a live node)."""
+    from .bij import method_site as _ms
+    rep.rule(R, "no wrapper class's constructor stores its argument unwrapped: a masking / constraining wrapper passed in "
+                "stays a live node and is re-applied at every unwrap", minimum=3)
+    seen = set()
+    for c in prog.subclasses(UNWRAPPABLE):
+        if c.qualname in seen:
+            continue
+        seen.add(c.qualname)
+        r = prog.find_method(c, "__init__")
+        if r is None or r[0].qualname != c.qualname:
+            continue
+        fn = r[1]
+        a = fn.args
+        pos = [("sym", p.arg.upper()) for p in (a.posonlyargs + a.args)[1:]]
+        kw = {p.arg: ("sym", p.arg.upper()) for p in a.kwonlyargs}
+        try:
+            fields = Interp(prog).eval_init(c, pos, kw)
+        except Exception as e:  # noqa: BLE001
+            rep.undecided(R, _ms(prog, c, "__init__"), f"{c.qualname}.__init__", str(e))
+            continue
+        for fname, t in sorted(fields.items()):
+            bad = _unwrap_reaches_value(t) and _is_unwrapped_argument(t)
+            rep.check(not bad, R, _ms(prog, c, "__init__"), f"{c.qualname}.__init__:{fname}-keeps-wrappers",
+                      "stores its argument as given", f"field {fname} stores {show(t, 160)}: the argument itself, unwrapped once "
+                      f"at construction - a Where mask / softplus constraint inside it is no longer applied after an update")
+
+
 def rule_ctor_keeps_wrappers(prog, rep, R="C12.kept"):
     """A combinator stores the members it is given: if its constructor stores unwrap(member) instead, a NonTrainable
     (or any other wrapper) around the member is consumed at construction - its leaves are ordinary trainable arrays of
